@@ -57,13 +57,15 @@ pub struct ProcCase {
     pub plan: String,
     /// bytes of a stale, longer file already sitting at the `-o` output path (0 = the path is new)
     pub stale: usize,
+    /// name of the AST file handed to `fml compile`
+    pub input_name: String,
     pub hash_seed: u64,
 }
 
 impl ProcCase {
     pub fn to_json(&self) -> Value {
         json!({"engine": ENGINE_B, "program": self.spec.to_json(), "profile": self.profile.name(), "sink": self.sink.name(),
-               "plan": self.plan, "stale": self.stale, "hash_seed": self.hash_seed})
+               "plan": self.plan, "stale": self.stale, "input_name": self.input_name, "hash_seed": self.hash_seed})
     }
     pub fn from_json(v: &Value) -> Option<ProcCase> {
         Some(ProcCase {
@@ -72,6 +74,7 @@ impl ProcCase {
             sink: Sink::from_name(v.get("sink")?.as_str()?)?,
             plan: v.get("plan")?.as_str()?.to_string(),
             stale: v.get("stale").and_then(|x| x.as_u64()).unwrap_or(0) as usize,
+            input_name: v.get("input_name").and_then(|x| x.as_str()).unwrap_or("x.json").to_string(),
             hash_seed: v.get("hash_seed")?.as_u64()?,
         })
     }
@@ -102,43 +105,48 @@ pub struct Ran {
 
 pub fn run_case(case: &ProcCase, prep: &Prepared) -> Ran {
     let dir = scratch_dir();
-    std::fs::write(dir.join("x.json"), &prep.ast_json).expect("write x.json");
+    let input = case.input_name.as_str();
+    std::fs::write(dir.join(input), &prep.ast_json).expect("write AST file");
     let mut args: Vec<&str> = vec!["compile"];
     let mut child;
     match case.sink {
         Sink::StdoutFile => {
-            args.push("x.json");
+            args.push(input);
             child = Child::new(case.profile, &args);
             child.stdout = Out::File("so.bc".into());
         }
         Sink::StdoutPipe => {
-            args.push("x.json");
+            args.push(input);
             child = Child::new(case.profile, &args);
             child.stdout = Out::Pipe;
         }
         Sink::DashOFile => {
             if case.stale > 0 { std::fs::write(dir.join("of.bc"), vec![0xEEu8; prep.reference.len() + case.stale]).unwrap(); }
-            args.extend(["x.json", "-o", "of.bc"]);
+            args.extend([input, "-o", "of.bc"]);
             child = Child::new(case.profile, &args);
         }
         Sink::DashODir => {
             std::fs::create_dir_all(dir.join("outdir")).unwrap();
-            if case.stale > 0 { std::fs::write(dir.join("outdir").join("x.bc"), vec![0xEEu8; prep.reference.len() + case.stale]).unwrap(); }
-            args.extend(["x.json", "-o", "outdir"]);
+            if case.stale > 0 {
+                // the name the tool derives today: the input's file name with its last extension replaced
+                let derived = std::path::Path::new(input).with_extension("bc");
+                std::fs::write(dir.join("outdir").join(derived), vec![0xEEu8; prep.reference.len() + case.stale]).unwrap();
+            }
+            args.extend([input, "-o", "outdir"]);
             child = Child::new(case.profile, &args);
         }
         Sink::StdinToStdout => {
             args.extend(["--input-format", "json"]);
             child = Child::new(case.profile, &args);
-            child.stdin = In::File("x.json".into());
+            child.stdin = In::File(input.to_string());
         }
         Sink::StdoutDevFull => {
-            args.push("x.json");
+            args.push(input);
             child = Child::new(case.profile, &args);
             child.stdout = Out::DevFull;
         }
         Sink::DashODevFull => {
-            args.extend(["x.json", "-o", "/dev/full"]);
+            args.extend([input, "-o", "/dev/full"]);
             child = Child::new(case.profile, &args);
         }
     }
@@ -153,7 +161,19 @@ pub fn run_case(case: &ProcCase, prep: &Prepared) -> Ran {
     let produced = match case.sink {
         Sink::StdoutFile | Sink::StdoutPipe | Sink::StdinToStdout => Some(result.stdout.clone()),
         Sink::DashOFile => std::fs::read(dir.join("of.bc")).ok(),
-        Sink::DashODir => std::fs::read(dir.join("outdir").join("x.bc")).ok(),
+        Sink::DashODir => {
+            // the derived name is the tool's business: exactly one file of the directory must be new or changed
+            // (a stale file that the tool did not choose as its output is simply left alone)
+            let stale_image = vec![0xEEu8; prep.reference.len() + case.stale];
+            let mut touched: Vec<Vec<u8>> = Vec::new();
+            if let Ok(rd) = std::fs::read_dir(dir.join("outdir")) {
+                for e in rd.filter_map(|e| e.ok()) {
+                    let bytes = std::fs::read(e.path()).unwrap_or_default();
+                    if !(case.stale > 0 && bytes == stale_image) { touched.push(bytes); }
+                }
+            }
+            if touched.len() == 1 { touched.pop() } else { None }
+        }
         Sink::StdoutDevFull | Sink::DashODevFull => None,
     };
     let _ = std::fs::remove_dir_all(&dir);
@@ -268,13 +288,14 @@ fn exercise(spec: &ProgSpec, rng: &mut Rng, per_program_random: usize) -> Out1 {
     };
     let profile = if rng.coin() { Profile::Debug } else { Profile::Release };
     let hash_seed = rng.next_u64();
-    if !baseline_accepts(&ProcCase { spec: spec.clone(), profile, sink: Sink::DashOFile, plan: String::new(), stale: 0, hash_seed }, &prep) {
+    let input_name: String = (*rng.pick(&["x.json", "x.json", "prog.v2.json", "my ast.json", "x.JSON", "дерево.json", "a.b.c.json"])).to_string();
+    if !baseline_accepts(&ProcCase { spec: spec.clone(), profile, sink: Sink::DashOFile, plan: String::new(), stale: 0, input_name: input_name.clone(), hash_seed }, &prep) {
         out.evaluations += 1;
         out.skipped = true;
         return out;
     }
     let mut cases: Vec<ProcCase> = Vec::new();
-    let mk = |sink: Sink, plan: String| ProcCase { spec: spec.clone(), profile, sink, plan, stale: 0, hash_seed };
+    let mk = |sink: Sink, plan: String| ProcCase { spec: spec.clone(), profile, sink, plan, stale: 0, input_name: input_name.clone(), hash_seed };
     // fault-free variants: every documented way of getting the bytes out
     for s in [Sink::StdoutFile, Sink::StdoutPipe, Sink::DashOFile, Sink::DashODir, Sink::StdinToStdout] {
         cases.push(mk(s, String::new()));
